@@ -8,8 +8,17 @@ BUILD = os.path.join(VERIF, 'build')
 NCPU = int(os.environ.get('VERIF_JOBS', os.cpu_count() or 4))
 SEED = int(os.environ.get('VERIF_SEED', '0') or 0)
 
+class _Timeout:
+    """what sh() returns when the command exceeded its time limit"""
+    def __init__(self, cmd, secs): self.returncode = -9; self.stdout = ''; self.stderr = 'TIMEOUT after %ss: %s' % (secs, ' '.join(map(str, cmd))[:200]); self.timed_out = True
+
 def sh(cmd, **kw):
-    return subprocess.run(cmd, stdout=subprocess.PIPE, stderr=subprocess.PIPE, universal_newlines=True, **kw)
+    try:
+        r = subprocess.run(cmd, stdout=subprocess.PIPE, stderr=subprocess.PIPE, universal_newlines=True, **kw)
+        r.timed_out = False
+        return r
+    except subprocess.TimeoutExpired:
+        return _Timeout(cmd, kw.get('timeout'))
 
 def file_hash(paths):
     h = hashlib.sha256()
